@@ -629,7 +629,7 @@ def run(ch: Checker) -> None:
             for idx, st in p.stmts():
                 if any(isinstance(c, ast.Call) and pred(c) for c in walk_no_nested(st)):
                     fd = allfacts(p, idx)
-                    out.add(' & '.join(sorted('%s=%s' % (k, v) for k, v in fd.items() if any(m in k for m in MODE_FLAGS) and ' and ' not in k and ' or ' not in k)))
+                    out.add(' & '.join(sorted('%s=%s' % (k, v) for k, v in fd.items() if _is_mode_read(ast.parse(k, mode='eval').body if k.replace('.', '').replace('_', '').isalnum() else ast.Constant(value=None)))))
         return out
     q = cond_of(ro, lambda c: is_dispatch(c) == 'local')
     st = cond_of(rn, lambda c: attr_chain(c.func) == 'self._start_local')
